@@ -303,6 +303,22 @@ def check_semantic(qn, call, acc=None):
                     else:
                         raise LookupError
                 return f(*pos)
+            if form == "all_pos_full":
+                # every positional-capable parameter passed positionally, defaults filled in explicitly
+                pos = []
+                for n, p_ in params.items():
+                    if p_.kind == inspect.Parameter.KEYWORD_ONLY:
+                        break
+                    if n in vals:
+                        pos.append(vals[n])
+                    elif p_.default is not inspect.Parameter.empty:
+                        pos.append(p_.default)
+                    else:
+                        raise LookupError
+                kw = {n: v for n, v in vals.items() if params[n].kind == inspect.Parameter.KEYWORD_ONLY}
+                if len(pos) <= len([n for n in params if n in vals]):
+                    raise LookupError  # nothing beyond the author's arguments
+                return f(*pos, **kw)
             raise LookupError
 
         return prog
@@ -320,7 +336,7 @@ def check_semantic(qn, call, acc=None):
         else:
             return out
     results = {}
-    for form in ("author", "all_kw", "explicit_defaults", "all_pos"):
+    for form in ("author", "all_kw", "explicit_defaults", "all_pos", "all_pos_full"):
         prog = make_prog(form)
         try:
             exp = jaxutil.flatten(prog(*[jnp.asarray(f) for f in feeds]))
@@ -352,8 +368,17 @@ def check_semantic(qn, call, acc=None):
             acc.case(key=("semantic", qn, form), nontrivial=(form != "author"))
             acc.tally("semantic", f"{form}:{status}")
     author = results.get("author", ("ok", ""))[0]
+    # ---- non-default values of optional parameters (type-directed), singly and paired with keepdims/axis
+    if author == "ok":
+        out += _nondefault_variants(qn, owner, tgt, attr, sig, params, static_args, tr_names, specs, feeds, acc)
+    explicit = ("not supported", "unsupported", "not implemented", "only supports", "notimplementederror", "does not support", "must be")
     for form, (status, detail) in results.items():
         if form == "author":
+            continue
+        if status == "rejected" and author == "ok" and not any(w in detail.lower() for w in explicit):
+            # the same bound arguments export fine in the author's form: a raise for a mere re-expression is a binding difference
+            out.append({"sig": {"kind": "reexpression_rejected", "substitute": qn, "form": form}, "case": {"kind": "semantic", "substitute": qn, "plugin": owner},
+                        "detail": f"{qn} called as {form} raises although the author's form of the same arguments exports: {detail}"})
             continue
         if status == "bind_failure":
             out.append({"sig": {"kind": "bind_failure_traced", "substitute": qn, "form": form}, "case": {"kind": "semantic", "substitute": qn, "plugin": owner},
@@ -361,6 +386,95 @@ def check_semantic(qn, call, acc=None):
         elif status == "wrong_result" and author == "ok":
             out.append({"sig": {"kind": "wrong_result", "substitute": qn, "form": form}, "case": {"kind": "semantic", "substitute": qn, "plugin": owner},
                         "detail": f"{qn} called as {form}: {detail} (the author's form agrees with JAX)"})
+    return out
+
+
+def _nondefault_variants(qn, owner, tgt, attr, sig, params, static_args, tr_names, specs, feeds, acc):
+    import itertools
+
+    import jax.numpy as jnp
+    from vf import jaxutil
+
+    out = []
+    first_shape = tuple(specs[0].shape) if specs else ()
+    cands = {}
+    for n, p_ in params.items():
+        if n in tr_names or p_.kind in (p_.VAR_POSITIONAL, p_.VAR_KEYWORD) or p_.default is inspect.Parameter.empty:
+            continue
+        cur = static_args.get(n, p_.default)
+        if n == "keepdims" and cur is False:
+            cands[n] = True
+        elif n == "axis" and cur is None and len(first_shape) >= 1:
+            cands[n] = len(first_shape) - 1
+        elif n == "axis" and isinstance(cur, int) and len(first_shape) >= 2 and cur in (-1, len(first_shape) - 1):
+            cands[n] = 0
+        elif isinstance(cur, bool):
+            cands[n] = not cur
+        elif n == "where" and cur is None and first_shape:
+            m = np.ones(first_shape, bool)
+            m.reshape(-1)[::2] = False
+            cands[n] = m
+        elif n == "b" and cur is None and first_shape:
+            cands[n] = np.full(first_shape, 2.0, np.float32)
+    names = sorted(cands)
+    combos = [(n,) for n in names] + [c for c in itertools.combinations(names, 2) if "keepdims" in c or "axis" in c][:6]
+    plan_ = [(c, False) for c in combos[:10]] + [(c, True) for c in combos[:10] if all(params[n].kind != inspect.Parameter.KEYWORD_ONLY for n in c)][:6]
+    for combo, _positional in plan_:
+        def prog(*xs, _combo=combo, _positional=_positional):
+            vals = dict(static_args)
+            vals.update(dict(zip(tr_names, xs)))
+            for n in _combo:
+                v = cands[n]
+                vals[n] = jnp.asarray(v) if isinstance(v, np.ndarray) else v
+            if _positional:
+                pos, kw = [], {}
+                plist = list(params)
+                last = max(plist.index(n) for n in vals if params[n].kind != inspect.Parameter.KEYWORD_ONLY)
+                for n in plist[: last + 1]:
+                    p_ = params[n]
+                    if p_.kind == inspect.Parameter.KEYWORD_ONLY:
+                        break
+                    pos.append(vals[n] if n in vals else p_.default)
+                kw = {n: v for n, v in vals.items() if params[n].kind == inspect.Parameter.KEYWORD_ONLY}
+                return getattr(tgt, attr)(*pos, **kw)
+            pos = [vals[n] for n in params if n in vals and params[n].kind == inspect.Parameter.POSITIONAL_ONLY]
+            kw = {n: v for n, v in vals.items() if params[n].kind != inspect.Parameter.POSITIONAL_ONLY}
+            return getattr(tgt, attr)(*pos, **kw)
+
+        label = "+".join(combo) + (":pos" if _positional else "")
+        try:
+            exp = jaxutil.flatten(prog(*[jnp.asarray(f) for f in feeds]))
+        except Exception:
+            if acc:
+                acc.tally("nondefault", "original_rejects")
+            continue
+        try:
+            m = jaxutil.to_onnx(prog, specs)
+        except TypeError as e:
+            msg = str(e)
+            if any(t in msg for t in BINDING_WORDS):
+                out.append({"sig": {"kind": "bind_failure_traced", "substitute": qn, "form": "nondefault:" + label}, "case": {"kind": "semantic", "substitute": qn, "plugin": owner},
+                            "detail": f"{qn}({label}=non-default): {msg[:160]}"})
+            elif acc:
+                acc.tally("nondefault", "rejected")
+            continue
+        except Exception:
+            if acc:
+                acc.tally("nondefault", "rejected")
+            continue
+        try:
+            got = jaxutil.run_model(m, feeds)
+            st_, d = jaxutil.compare_all(got, exp, None)
+        except Exception as e:
+            if acc:
+                acc.tally("nondefault", "ort_error")
+            continue
+        if acc:
+            acc.case(key=("nondefault", qn, label), nontrivial=True)
+            acc.tally("nondefault", st_)
+        if st_ not in ("ok", "trivial"):
+            out.append({"sig": {"kind": "argument_ignored_or_wrong", "substitute": qn, "parameter": label}, "case": {"kind": "semantic", "substitute": qn, "plugin": owner},
+                        "detail": f"{qn} with non-default {label}: exported model differs from the original function: {d}"})
     return out
 
 
